@@ -509,6 +509,12 @@ func (n eqNode) mutants() []eqNode {
 		m2 := cloneNode(n)
 		m2.Cap = n.Cap + len(n.Kids) + 1
 		add(m2, "stack capacity changed")
+		if len(n.Kids) > 0 && n.Cap != len(n.Kids) {
+			// a limit that the content reaches exactly (the stack is full) against none / another one
+			mf := cloneNode(n)
+			mf.Cap = len(n.Kids)
+			add(mf, "stack capacity changed to exactly the length")
+		}
 		m3 := cloneNode(n)
 		m3.Kids = append(m3.Kids, eqNode{T: "prim", V: "extra"})
 		if n.Cap == 0 || len(n.Kids) < n.Cap {
@@ -701,6 +707,8 @@ func c05Trees(c *Ctx) []eqNode {
 		}
 	}
 	nested = append(nested, eqNode{T: "stack", Kind: "LIST"}, eqNode{T: "alias", Kind: "AND", Kids: []eqNode{leaves[0], leaves[9]}})
+	// stacks filled exactly to their capacity
+	nested = append(nested, eqNode{T: "stack", Kind: "BASIC", Cap: 2, Kids: []eqNode{leaves[0], leaves[1]}}, eqNode{T: "stack", Kind: "AND", Cap: 1, Kids: []eqNode{leaves[1]}})
 	// stacks whose presentation settings are the same on both sides of a comparison (a symbol, case folding)
 	nested = append(nested, eqNode{T: "stack", Kind: "AND", Sym: "+", Kids: []eqNode{leaves[1]}}, eqNode{T: "stack", Kind: "NOT", Sym: "!", Fold: true, Kids: []eqNode{leaves[0], leaves[1]}},
 		eqNode{T: "stack", Kind: "OR", Fold: true, Kids: []eqNode{leaves[1]}})
